@@ -422,47 +422,48 @@ impl Monitor for M {
             Phase::new("enum", enum_cases(tier.pick(ENUM_MAX_LEN_QUICK as u64, ENUM_MAX_LEN_THOROUGH as u64) as u32))
                 .batch(512)
                 .exhaustive("all lists of length 1..6 (thorough: 1..7) over {A, glue 5pt+3-1, glue 4pt, explicit kern 4pt, penalty 0, penalty -10000, disc{B}{}{}} x line width {12pt, 21pt} x tolerance {200, 10000}"),
-            Phase::new("small", tier.pick(20_000, 600_000)).batch(128),
-            Phase::new("random", tier.pick(60_000, 3_000_000)).batch(128),
-            Phase::new("books", tier.pick(3 * 2 * 100, 3 * 2 * 4000)).batch(8),
+            Phase::new("small", tier.pick(250_000, 6_000_000)).batch(128),
+            Phase::new("random", tier.pick(500_000, 20_000_000)).batch(128),
+            Phase::new("books", tier.pick(4 * 2 * 500, 4 * 2 * 12_000)).batch(8),
         ]
     }
     fn floors(&self, tier: Tier) -> Vec<(&'static str, u64)> {
-        let s = tier.pick(1, 30);
+        // roughly a third of what the quick tier observes at seed 0; the thorough tier is ~35x larger
+        let s = tier.pick(1, 25);
         vec![
-            ("instances:judged", tier.pick(150_000, 4_000_000)),
-            ("verdict:agrees-with-tex-model", tier.pick(80_000, 2_000_000)),
-            ("trace:feasible-breaks-checked", 500_000 * s),
-            ("trace:new-active-nodes-checked", 300_000 * s),
-            ("trace:breakpoints-with-several-fitness-classes", 2_000 * s),
-            ("model:dp-cross-checked-by-brute-force", 100_000 * s),
-            ("model:several-line-counts-feasible", 3_000 * s),
-            ("result:feasible-instance", 40_000 * s),
-            ("result:infeasible-instance(None expected and returned)", 20_000 * s),
-            ("result:lines=2", 5_000 * s),
-            ("result:lines=3", 3_000 * s),
-            ("result:lines=4-5", 2_000 * s),
-            ("result:lines>=6", 300 * s),
-            ("class:very-loose-line", 5_000 * s),
-            ("class:loose-line", 5_000 * s),
-            ("class:decent-line", 5_000 * s),
-            ("class:tight-line", 5_000 * s),
-            ("class:adj-demerits-applied", 2_000 * s),
-            ("class:double-or-final-hyphen-demerits-applied", 2_000 * s),
-            ("class:forced-break-inside-paragraph", 5_000 * s),
-            ("class:line-widths-vary", 5_000 * s),
-            ("class:more-lines-than-width-entries", 500 * s),
-            ("class:easy-line-boundary", 500 * s),
-            ("boundary:badness=12", 200 * s),
-            ("boundary:badness=13", 200 * s),
-            ("boundary:badness=99", 100 * s),
-            ("boundary:badness=100", 100 * s),
-            ("boundary:badness=tolerance", 300 * s),
-            ("looseness:reached-exactly", 500 * s),
-            ("looseness:unreachable-pass-gives-up", 500 * s),
-            ("looseness:final-pass-judged", 1_000 * s),
-            ("looseness:final-pass-settles-for-closest", 300 * s),
-            ("books:instances-judged", tier.pick(200, 8_000)),
+            ("instances:judged", 600_000 * s),
+            ("verdict:agrees-with-tex-model", 450_000 * s),
+            ("trace:feasible-breaks-checked", 5_000_000 * s),
+            ("trace:new-active-nodes-checked", 1_200_000 * s),
+            ("trace:breakpoints-with-several-fitness-classes", 80_000 * s),
+            ("model:dp-cross-checked-by-brute-force", 500_000 * s),
+            ("model:several-line-counts-feasible", 100_000 * s),
+            ("result:feasible-instance", 150_000 * s),
+            ("result:infeasible-instance(None expected and returned)", 200_000 * s),
+            ("result:lines=2", 50_000 * s),
+            ("result:lines=3", 25_000 * s),
+            ("result:lines=4-5", 8_000 * s),
+            ("result:lines>=6", 1_500 * s),
+            ("class:very-loose-line", 100_000 * s),
+            ("class:loose-line", 25_000 * s),
+            ("class:decent-line", 60_000 * s),
+            ("class:tight-line", 20_000 * s),
+            ("class:adj-demerits-applied", 100_000 * s),
+            ("class:double-or-final-hyphen-demerits-applied", 40_000 * s),
+            ("class:forced-break-inside-paragraph", 100_000 * s),
+            ("class:line-widths-vary", 60_000 * s),
+            ("class:more-lines-than-width-entries", 2_500 * s),
+            ("class:easy-line-boundary", 5_000 * s),
+            ("boundary:badness=12", 8_000 * s),
+            ("boundary:badness=13", 3_000 * s),
+            ("boundary:badness=99", 800 * s),
+            ("boundary:badness=100", 30_000 * s),
+            ("boundary:badness=tolerance", 500_000 * s),
+            ("looseness:reached-exactly", 2_500 * s),
+            ("looseness:unreachable-pass-gives-up", 8_000 * s),
+            ("looseness:final-pass-judged", 10_000 * s),
+            ("looseness:final-pass-settles-for-closest", 8_000 * s),
+            ("books:instances-judged", tier.pick(2_500, 60_000)),
         ]
     }
     fn calibrate(&self, obs: &mut Obs) {
